@@ -446,5 +446,41 @@ func init() {
 		}
 		fmt.Fprintf(&e.out, "def requestLoopsContainersOnceInitOnce : Bool := %v\ndef requestInitLoopSidecarOnly : Bool := %v\ndef requestClampsNonPositive : Nat := %d\n",
 			loops == 11, sidecarOnly, clamps)
+
+		// --- the four candidate-list builders (Model/C11Passes.lean): the `continue` guards of the pod loop (BE builders:
+		//     QoS, policy; priority builders: inactive, policy, priority, eviction-enabled, query meta, metric error) and
+		//     no mention of the deletionTimestamp - a terminating pod is filtered by none of them
+		guards := func(dir, recv, name string) (int, bool) {
+			cont, del := -1, false
+			if fd := need(dir, recv, name); fd != nil {
+				ast.Inspect(fd.Body, func(n ast.Node) bool {
+					switch v := n.(type) {
+					case *ast.RangeStmt:
+						if cont < 0 && norm(v.X) == "pods" {
+							cont = 0
+							ast.Inspect(v.Body, func(m ast.Node) bool {
+								if b, ok := m.(*ast.BranchStmt); ok && b.Tok == token.CONTINUE {
+									cont++
+								}
+								return true
+							})
+						}
+					case *ast.Ident:
+						if strings.Contains(v.Name, "DeletionTimestamp") || strings.Contains(v.Name, "Terminating") {
+							del = true
+						}
+					}
+					return true
+				})
+			}
+			return cont, del
+		}
+		memDir, cpuDir := "pkg/koordlet/qosmanager/plugins/memoryevict", "pkg/koordlet/qosmanager/plugins/cpuevict"
+		g1, d1 := guards(memDir, "memoryEvictor", "getSortedBEPodInfos")
+		g2, d2 := guards(memDir, "memoryEvictor", "getPodEvictInfoAndSortByPriority")
+		g3, d3 := guards(cpuDir, "cpuEvictor", "getBEPodEvictInfoAndSort")
+		g4, d4 := guards(cpuDir, "cpuEvictor", "getPodEvictInfoAndSortByPriority")
+		fmt.Fprintf(&e.out, "def memBEBuilderGuards : Int := %d\ndef memPrioBuilderGuards : Int := %d\ndef cpuBEBuilderGuards : Int := %d\ndef cpuPrioBuilderGuards : Int := %d\ndef listBuildersMentionDeletionTimestamp : Bool := %v\n",
+			g1, g2, g3, g4, d1 || d2 || d3 || d4)
 	}
 }
